@@ -103,6 +103,7 @@ type SpecFunc struct {
 	Macro  bool
 	Opaque bool // definition hidden unless the contract says `reveal name`
 	Src    string
+	Pkg    string // package of the defining contract file (macros are evaluated in its scope)
 }
 
 // FuncContract is the contract of one Go function, method, closure or
@@ -128,6 +129,8 @@ type FuncContract struct {
 	Src       string
 	Fresh     []string // result names that are freshly allocated
 	Reveal    []string // opaque spec functions whose definition this function's obligations may use
+	Writes    []string // parameters through which caller-visible memory is written (with HasWrites)
+	HasWrites bool     // `writes` given: heap effects are exactly the memory the listed parameters point to
 	Opts      map[string]string
 	AuxLabels map[string]bool
 }
